@@ -12,7 +12,7 @@ C20.prov   : the path of every write reachable from exmod is rooted (def-use) at
 
 import ast
 
-from ..core import RefGraph, attr_chain, iter_own, short
+from ..core import RefGraph, attr_chain, iter_own, norm, short
 from ..effects import Effects
 from ..walker import GuardWalker, assigned_names
 from ..writes import WriteModel
@@ -84,6 +84,87 @@ def passes_flag(call, target, skip_first=0):
                 return True, ""
             return False, "positional dry_run argument is {}".format(short(v, 40))
     return False, "dry_run not forwarded"
+
+
+class _NotBoolean(Exception):
+    """the gate expression uses something outside the boolean abstraction"""
+
+
+def _beval(e, a):
+    """
+    evaluate the gate expression under truth assignment `a` of the atoms
+      B  = mod_path in blacklist     W  = mod_path in whitelist
+      eB = blacklist is empty        eW = whitelist is empty
+    """
+    t = norm(e)
+    if isinstance(e, ast.BoolOp):
+        vals = [_beval(v, a) for v in e.values]
+        return all(vals) if isinstance(e.op, ast.And) else any(vals)
+    if isinstance(e, ast.UnaryOp) and isinstance(e.op, ast.Not):
+        return not _beval(e.operand, a)
+    if isinstance(e, ast.IfExp):
+        return _beval(e.body, a) if _beval(e.test, a) else _beval(e.orelse, a)
+    if isinstance(e, ast.Constant) and isinstance(e.value, bool):
+        return e.value
+    if isinstance(e, ast.Call) and isinstance(e.func, ast.Name) and e.func.id in ("any", "all") and len(e.args) == 1:
+        arg = e.args[0]
+        if isinstance(arg, (ast.Tuple, ast.List)):
+            vals = [_beval(v, a) for v in arg.elts]
+            return any(vals) if e.func.id == "any" else all(vals)
+        raise _NotBoolean(t)
+    if isinstance(e, ast.Call) and isinstance(e.func, ast.Name) and e.func.id == "bool" and len(e.args) == 1:
+        return _beval(e.args[0], a)
+    if isinstance(e, ast.Name) and e.id in ("blacklist", "whitelist"):
+        return not a["eB" if e.id == "blacklist" else "eW"]
+    if isinstance(e, ast.Compare) and len(e.ops) == 1:
+        left, op, right = norm(e.left), e.ops[0], norm(e.comparators[0])
+        if left == "mod_path" and right in ("blacklist", "whitelist") and isinstance(op, (ast.In, ast.NotIn)):
+            v = a["B" if right == "blacklist" else "W"]
+            return v if isinstance(op, ast.In) else not v
+        if isinstance(op, (ast.Eq, ast.NotEq)) and right == "0":
+            both = {"sum(map(len, (blacklist, whitelist)))": a["eB"] and a["eW"],
+                    "sum(map(len, (whitelist, blacklist)))": a["eB"] and a["eW"],
+                    "len(blacklist) + len(whitelist)": a["eB"] and a["eW"],
+                    "len(blacklist)": a["eB"], "len(whitelist)": a["eW"]}
+            if left in both:
+                return both[left] if isinstance(op, ast.Eq) else not both[left]
+    raise _NotBoolean(t)
+
+
+def _gate_truth_table(ctx, esf, assign):
+    """decide the gate: proceed must imply (not blacklisted) and (whitelisted or no whitelist)"""
+    import itertools
+
+    rows = 0
+    bad = []
+    try:
+        for B, W, eB, eW in itertools.product((False, True), repeat=4):
+            if (B and eB) or (W and eW):
+                continue  # a member of an empty collection: infeasible
+            rows += 1
+            a = {"B": B, "W": W, "eB": eB, "eW": eW}
+            if _beval(assign.value, a) and not ((not B) and (W or eW)):
+                bad.append(a)
+    except _NotBoolean as x:
+        ctx.need(False, "the blacklist/whitelist gate uses a construct outside the boolean abstraction: {}".format(x))
+    ctx.count("gate_truth_table_rows", rows)
+    ctx.ob(
+        "C20.gate",
+        esf,
+        "truth table of `proceed`",
+        not bad,
+        ""
+        if not bad
+        else "the gate lets a module through that is blacklisted / not whitelisted, e.g. when {}".format(
+            ", ".join(
+                "{}={}".format(
+                    {"B": "in blacklist", "W": "in whitelist", "eB": "blacklist empty", "eW": "whitelist empty"}[k], v
+                )
+                for k, v in bad[0].items()
+            )
+        ),
+        line=assign.lineno,
+    )
 
 
 def run(ctx):
@@ -263,6 +344,7 @@ def run(ctx):
         ok,
         "" if ok else "`proceed` no longer depends on blacklist, whitelist and mod_path",
     )
+    _gate_truth_table(ctx, esf, pa[0])
     fp = [
         n
         for n in iter_own(entry.node)
